@@ -268,3 +268,83 @@ Proof.
 Qed.
 
 End KeyChecked.
+
+(* ------------------------------------------------------------------ *)
+(* the same for the VM itself                                           *)
+(* ------------------------------------------------------------------ *)
+Section VmRun.
+Variable F : fops.
+Variable bld : build.
+Variable P : program.
+Notation wf := (tables_wf F).
+
+(* the states the run [run_at (S d) ip s] passes through (its own dispatch loop; the nested runs it starts are
+   runs [run_at (S d') ip' s'] with d' < d) *)
+Definition run_at_states (mi : N) (d : nat) (ip : N) (s : state) : list state :=
+  loop_states P (step F bld P (run_at F bld P false mi d)) (N.to_nat (st_rem s)) ip s.
+
+(* the states Vm.run passes through at nesting level 0, from the state after the entry frame was pushed *)
+Definition run_states (budget : nat) (s : state) : list state :=
+  match push_frame s (mkFrame 0 0 0 None) with
+  | None => [s]
+  | Some s1 => run_at_states (N.of_nat budget) (pred max_depth) 0 (set_rem s1 (N.of_nat budget))
+  end.
+
+Definition no_key_check_fails_at (d : nat) (ip : N) (s : state) : Prop := rU (run_at_k F bld P d ip s).
+
+Theorem run_at_tables_wf : forall mi d ip s,
+  wf (st_heap s) -> no_key_check_fails_at (S d) ip s ->
+  hext (st_heap s) (st_heap (rres_state (run_at F bld P false mi (S d) ip s))) /\
+  wf (st_heap (rres_state (run_at F bld P false mi (S d) ip s))) /\
+  Forall (fun x => hext (st_heap s) (st_heap x) /\ wf (st_heap x)) (run_at_states mi d ip s).
+Proof.
+  intros mi d ip s W HU. unfold no_key_check_fails_at in HU.
+  rewrite (run_at_agree_k F bld P mi (S d) ip s HU).
+  destruct (run_at_k_wf F bld P d ip s W) as (X & W' & R). split; [exact X|]. split; [exact W'|].
+  unfold run_at_states. cbn [run_at_k] in HU.
+  destruct (loop_k_agree F bld P _ _ (run_at_agree_k F bld P mi d) _ _ _ HU) as (_ & ->). exact R.
+Qed.
+
+Theorem run_tables_wf : forall budget s,
+  wf (st_heap s) -> fst (run_k F bld P budget s) <> OAbort AUnmodelled ->
+  hext (st_heap s) (st_heap (snd (run F bld budget P s))) /\
+  wf (st_heap (snd (run F bld budget P s))) /\
+  Forall (fun x => hext (st_heap s) (st_heap x) /\ wf (st_heap x)) (run_states budget s).
+Proof.
+  intros budget s W HU. rewrite (run_agrees_k F bld P budget s HU).
+  destruct (run_k_wf F bld P budget s W) as (X & W'). split; [exact X|]. split; [exact W'|].
+  unfold run_states. unfold run_k in HU.
+  destruct (push_frame s (mkFrame 0 0 0 None)) as [s1|] eqn:E.
+  - apply push_frame_heap in E.
+    assert (W1 : wf (st_heap (set_rem s1 (N.of_nat budget)))) by (cbn [st_heap set_rem]; rewrite E; exact W).
+    assert (HU1 : no_key_check_fails_at (S (pred max_depth)) 0 (set_rem s1 (N.of_nat budget))).
+    { unfold no_key_check_fails_at. change (S (pred max_depth)) with max_depth.
+      destruct (run_at_k F bld P max_depth 0 _) as [s'|e ip' s'|a s']; cbn [rU]; try exact I.
+      intros ->. apply HU. reflexivity. }
+    destruct (run_at_tables_wf (N.of_nat budget) (pred max_depth) 0 _ W1 HU1) as (_ & _ & R).
+    change (st_heap (set_rem s1 (N.of_nat budget))) with (st_heap s1) in R. rewrite E in R. exact R.
+  - constructor; [|constructor]. split; [apply hext_refl | exact W].
+Qed.
+
+(* [run_at_states] really is the run: it ends in the state of the run's result *)
+Lemma loop_states_last re : forall fuel ip s,
+  last (loop_states P (step F bld P re) fuel ip s) s = rres_state (loop F bld P re fuel ip s).
+Proof.
+  induction fuel as [|f IH]; intros ip s; cbn [loop_states loop]; fold (code_len P).
+  - destruct (code_len P <=? ip)%N; [reflexivity|]. destruct (st_rem _ =? 0)%N; reflexivity.
+  - destruct (code_len P <=? ip)%N; [reflexivity|]. destruct (st_rem _ =? 0)%N; [reflexivity|].
+    rewrite last_cons_dflt.
+    destruct (step F bld P re ip _) as [ip' s'|s'|e ip' s'|a s'] eqn:E; cbn [rres_state]; try reflexivity.
+    rewrite <- (IH ip' s').
+    assert (N : forall d1 d2, last (loop_states P (step F bld P re) f ip' s') d1
+                              = last (loop_states P (step F bld P re) f ip' s') d2).
+    { intros d1 d2. destruct f; cbn [loop_states]; destruct (code_len P <=? ip')%N; try reflexivity;
+        destruct (st_rem _ =? 0)%N; try reflexivity. rewrite !last_cons_dflt. reflexivity. }
+    apply N.
+Qed.
+
+Theorem run_at_states_last mi d ip s :
+  last (run_at_states mi d ip s) s = rres_state (run_at F bld P false mi (S d) ip s).
+Proof. unfold run_at_states. cbn [run_at]. unfold run_loop. apply loop_states_last. Qed.
+
+End VmRun.
